@@ -176,6 +176,21 @@ theorem bce_gradient_one_channel (n : Nat) (s : Nat → Nat → ℝ) (labels : L
   refine ⟨_, bceLossGradient_eq_spec_one n s labels hlen hlab, ?_⟩
   exact bceLoss_hasDerivAt n 1 s labels hn i 0 hi (by decide)
 
+/-- the side condition of `bce_gradient_one_channel` is needed: with one channel the loss reads a label as the binary
+target `label > 0`, the gradient method subtracts the label as a number; for the (non-binary) label 2 it returns
+`σ(0) − 2` where the derivative is `σ(0) − 1`.  One output channel means binary labels {0, 1}. -/
+theorem bce_one_channel_needs_binary_labels :
+    ∃ G, bceLossGradient (mk' 1 1 fun _ _ => (0 : ℝ)) [2] = .ok G ∧
+      G.get 0 0 ≠ (Spec.bceGradient (mk' 1 1 fun _ _ => (0 : ℝ)) [2]).get 0 0 := by
+  refine ⟨_, rfl, ?_⟩
+  simp only [mk'_r, mk'_c]
+  rw [get_mk'_of_lt _ (by decide) (by decide), actOutput_mk', get_mk'_of_lt _ (by decide) (by decide)]
+  unfold Spec.bceGradient
+  simp only [mk'_r, mk'_c]
+  rw [get_mk'_of_lt _ (by decide) (by decide),
+    actFn_congr .sigmoid 1 _ (fun _ => (0 : ℝ)) (get_row_eq 1 1 (fun _ _ => (0 : ℝ)) 0 (by decide)) 0 (by decide)]
+  simp
+
 /-- **F14 on the pinned tree** (kept as the witness of the repaired defect): the formula `(probs.T − labels).T` that
 `BinaryCrossEntropy.loss_gradient` used for any number of channels is not the gradient with two channels. -/
 theorem bce_pinned_formula_is_not_the_gradient :
@@ -406,9 +421,9 @@ theorem resolve_refusals (act : Except PyErr Act) (loss : Option (Except PyErr L
     (isSage = true ∨ isConv = true → resolveParsed isSage isConv act (some (.error e)) norm se c = .error e) := by
   refine ⟨rfl, ?_, ?_⟩
   · intro h
-    rcases h with h | h <;> subst h <;> cases isSage <;> cases isConv <;> rfl
+    cases isSage <;> cases isConv <;> first | rfl | simp at h
   · intro h
-    rcases h with h | h <;> subst h <;> cases isSage <;> cases isConv <;> rfl
+    cases isSage <;> cases isConv <;> first | rfl | simp at h
 
 /-- the last layer applies the activation of its loss (soft-max for cross-entropy, sigmoid for binary cross-entropy),
 and a cross-entropy loss on a single output channel is replaced by the binary cross-entropy (`check_loss`): the
@@ -421,7 +436,6 @@ theorem resolve_last_layer (isSage isConv : Bool) (h : isSage = true ∨ isConv 
   have hk : (if (k == LossKind.crossEntropy && c == 1) = true then LossKind.binaryCrossEntropy else k)
       = (if k = .crossEntropy ∧ c = 1 then .binaryCrossEntropy else k) := by
     cases k <;> by_cases hc : c = 1 <;> simp [hc]
-  rcases h with h | h <;> subst h <;> cases isSage <;> cases isConv <;>
-    exact ⟨_, _, rfl, rfl, hk⟩
+  cases isSage <;> cases isConv <;> first | exact ⟨_, _, rfl, rfl, hk⟩ | simp at h
 
 end SkNet.C19
